@@ -162,7 +162,12 @@ def check(ctx) -> None:
             recv = a.func.value
             local = isinstance(recv, ast.Name) and any(isinstance(p.targets[0], ast.Name) and p.targets[0].id == recv.id for p in pools)
             term = [c for c in calls(f) if isinstance(c.func, ast.Attribute) and c.func.attr in ("terminate", "shutdown", "close") and unparse(c.func.value) == unparse(recv)]
-            ok = local and len(term) >= 1
+            # `with ThreadPool(1) as pool:` creates and terminates the pool in the job
+            managed = isinstance(recv, ast.Name) and any(
+                isinstance(w, ast.withitem) and isinstance(w.optional_vars, ast.Name) and w.optional_vars.id == recv.id and isinstance(w.context_expr, ast.Call) and unparse(w.context_expr.func).split(".")[-1] in ("ThreadPool", "Pool", "ThreadPoolExecutor")
+                for w in own_nodes(f.node)
+            )
+            ok = (local and len(term) >= 1) or managed
             ctx.instance("C11-X5", "%s: job submitted to %s (created in the job: %s, terminated: %d site(s))" % (short, unparse(recv), local, len(term)), f.loc(a), ok=ok)
             if not ok:
                 ctx.finding("C11-X5", "%s:shared-watchdog-pool" % short, f.loc(a), "the job is submitted to %s, which is not a pool created and terminated inside this job: a search that runs past its timeout keeps the shared worker busy and the following, unaffected reactions time out behind it" % unparse(recv))
